@@ -3,9 +3,9 @@ package main
 // C06 (packet integrity) and C07 (limits / occupancy) of packetio.Buffer.
 
 import (
-	"os"
 	"fmt"
 	"go/token"
+	"os"
 	"strings"
 
 	"golang.org/x/tools/go/ssa"
